@@ -145,7 +145,7 @@ def classes(module, path=(), ns=()):
         if d[0] == 'ns':
             for x in classes(d[2], path + (i,), ns + (d[1],)):
                 yield x
-        elif d[0] == 'class' and d[1] is None:
+        elif d[0] == 'class' and (d[1] is None or (len(d[1][1]) == 1 and d[1][1][0][1])):
             yield path + (i,), ns, d
 
 
@@ -166,11 +166,22 @@ def c15(rep, n):
         cls = [c for c in classes(m) if not any(x[0] == 'enum' for x in c[2][5])]
         if len(cls) < 1:
             continue
-        path, ns, d = cls[i % len(cls)]
-        cpp = '::'.join(ns + (d[3],))
-        # nothing else may refer to the class: use a fresh unique name
+        names = [c[2][3] for c in classes(m)]
+        cls.sort(key=lambda c: (-names.count(c[2][3]), c[2][1] is None))      # prefer clashing simple names, then templates
+        path, ns, d = cls[i % min(len(cls), 2)]
         text = unparse(m)
-        without = unparse(replace_at(m, path, None))
+        if d[1] is None:
+            cpp = '::'.join(ns + (d[3],))
+            mname = cpp
+            without = unparse(replace_at(m, path, None))
+        else:
+            p0, insts = d[1][1][0]
+            j = i % len(insts)
+            cpp = R.cpp_name(T(d[3], ns, (insts[j],)))
+            mname = '::'.join(ns + (d[3] + R.inst_suffix((insts[j],)),))
+            rest = insts[:j] + insts[j + 1:]
+            d2 = d[:1] + (('TPL', ((p0, rest),)),) + d[2:] if rest else None
+            without = unparse(replace_at(m, path, d2))
         rep.bounded['evaluations'] += 1
         try:
             a = records(text, ignore=(cpp,))
@@ -188,15 +199,15 @@ def c15(rep, n):
                           dict(kind='c15', input=text, ignore=cpp, without=without))
         if ns:      # MATLAB: namespaced classes (global-scope ignore is a known finding)
             try:
-                fa, _ = generate(text, ignore=(cpp,))
+                fa, _ = generate(text, ignore=(mname,))
                 fb, _ = generate(without)
             except Exception:
                 continue
             ma, mb = mask_ids(fa), mask_ids(fb)
             if ma != mb:
                 diff = sorted(set(ma) ^ set(mb)) or [p for p in ma if ma[p] != mb.get(p)]
-                rep.violation('c15:matlab-ignore-vs-delete', 'MATLAB: ignoring %s differs from deleting it in %s' % (cpp, diff[:4]),
-                              dict(kind='c15-matlab', input=text, ignore=cpp, without=without))
+                rep.violation('c15:matlab-ignore-vs-delete', 'MATLAB: ignoring %s differs from deleting it in %s' % (mname, diff[:4]),
+                              dict(kind='c15-matlab', input=text, ignore=mname, without=without))
 
 
 def replay(obj):
